@@ -24,7 +24,7 @@ def run(ctx):
         return
     ctx.validate(TRACE_MODULE, tr, label="pure", min_lines=500)
     # the same program on the aligned qualifiers of an intrinsic build (glm/simd/geometric.h kernels: dot via _mm_dp_ps at AVX, hadd at SSE3 ...)
-    for vl, isa in ([("aligned-avx2", ["-mavx2", "-mfma"])] if ctx.quick else [("aligned-avx2", ["-mavx2", "-mfma"]), ("aligned-sse2", ["-msse2"]), ("aligned-sse3", ["-msse3"])]):
+    for vl, isa in ([("aligned-avx2", ["-mavx2", "-mfma"]), ("aligned-sse2", ["-msse2"])] if ctx.quick else [("aligned-avx2", ["-mavx2", "-mfma"]), ("aligned-sse2", ["-msse2"]), ("aligned-sse3", ["-msse3"]), ("aligned-sse4.1", ["-msse4.1"])]):
         ba = ctx.build("c12_" + vl.replace("-", "_"), "c12.cpp", flags=["-DC12_ALIGNED", "-DGLM_FORCE_INTRINSICS", "-DGLM_FORCE_ALIGNED_GENTYPES"] + isa, opt="-O1")
         if not ba:
             continue
